@@ -160,4 +160,21 @@ mod tests {
         let r = block_on(schema.execute(req));
         assert!(!r.errors.is_empty(), "document with `$v: Int` in an `Int!` position was accepted: {:?}", r.data);
     }
+
+    /// C06: an argument bound to a variable that the request omits (and that has no default of
+    /// its own) behaves as an omitted argument: the ARGUMENT's default applies.
+    #[test]
+    fn c06_omitted_variable_uses_argument_default() {
+        struct Q4;
+        #[Object]
+        impl Q4 {
+            async fn f(&self, #[graphql(default = 7)] a: i32) -> i32 {
+                a
+            }
+        }
+        let schema = Schema::new(Q4, EmptyMutation, EmptySubscription);
+        let r = block_on(schema.execute("query($v: Int) { f(a: $v) }"));
+        assert!(r.errors.is_empty(), "{:?}", r.errors);
+        assert_eq!(r.data, value!({ "f": 7 }));
+    }
 }
